@@ -23,6 +23,8 @@ M = [
  ("section.py", "def address", "if 0 < len(index) == len(self.byte_intervals):", "if 0 < len(index):", "section.py::Section.address"),
  ("serialization.py", "class SetCodec", "Uint64Codec.encode(out, len(items))", "Uint64Codec.encode(out, len(items) + 1)", "SetCodec.encode"),
  ("serialization.py", "class SetCodec", "serialization._encode_tree(out, item, subtype)", "serialization._encode_tree(out, item, subtypes)", "SetCodec.encode"),
+ ("serialization.py", "Mapping codec only supports Mappings", "serialization._encode_tree(out, val, val_type)", "serialization._encode_tree(out, val, key_type)", "MappingCodec.encode"),
+ ("serialization.py", "Mapping codec only supports Mappings", "serialization._encode_tree(out, key, key_type)\n            serialization._encode_tree(out, val, val_type)", "serialization._encode_tree(out, val, val_type)\n            serialization._encode_tree(out, key, key_type)", "MappingCodec.encode"),
  ("node.py", "def _from_protobuf", "elif cached_node is not None:", "elif False:", "Node._from_protobuf[Symbol]"),
 ]
 
